@@ -1,10 +1,13 @@
 package props
 
 import (
+	"bytes"
 	"fmt"
 	"math/big"
 	"strings"
 
+	"github.com/DOSNetwork/core/group/bn256"
+	"github.com/DOSNetwork/core/group/edwards25519"
 	"github.com/DOSNetwork/core/share"
 	"github.com/dedis/kyber"
 
@@ -685,5 +688,163 @@ func genC09(rng *hx.Rng, tier string, w *hx.Writer) error {
 			}
 		}
 	}
+	c09Histories(rng, tier, w)
+	c09TwoInstances(rng, w)
 	return nil
+}
+
+// Commitment polynomials whose commitments (and base point) are point OBJECTS with a history - sums
+// accumulated in place, clones, decoded points, multiples of earlier results (props/pointmachine.go) -
+// handed to NewPubPoly without anything looking at them first: Eval must give the commitment of the
+// polynomial's value, Check must accept exactly the true share, Equal / Add must agree with
+// polynomials built from freshly computed points.
+func c09Histories(rng *hx.Rng, tier string, w *hx.Writer) {
+	nProg := 40
+	if tier == "thorough" {
+		nProg = 800
+	}
+	for _, grp := range []int{GrpG2, GrpEd} {
+		g, q := GroupOf(grp), OrderOf(grp)
+		gtag := fmt.Sprintf("g%d", grp)
+		for it := 0; it < nProg; it++ {
+			var prog []string
+			var problems []string
+			res := hx.Catch(func() string {
+				regs := pmRun(rng, g, q, 2+rng.Intn(8), &prog)
+				t := 2 + rng.Intn(3)
+				if t > len(regs) {
+					t = len(regs)
+				}
+				pm := rng.Perm(len(regs))[:t]
+				commits := make([]kyber.Point, t)
+				coeffs := make([]*big.Int, t)
+				for k, r := range pm {
+					commits[k], coeffs[k] = regs[r].p, regs[r].d
+				}
+				pp := share.NewPubPoly(g, nil, commits)
+				for _, i := range []int{0, 1, 2 + rng.Intn(6)} {
+					v := refEval(coeffs, i, q)
+					if !bytes.Equal(PtBytes(pp.Eval(i).V), PtBytes(Pt(g, v, q))) {
+						problems = append(problems, fmt.Sprintf("Eval(%d) is not the commitment of the polynomial's value there (commitments r%v)", i, pm))
+						break
+					}
+					if !pp.Check(&share.PriShare{I: i, V: Sc(g, v, q)}) {
+						problems = append(problems, fmt.Sprintf("Check refuses the true share at index %d (commitments r%v)", i, pm))
+						break
+					}
+					if pp.Check(&share.PriShare{I: i, V: Sc(g, new(big.Int).Add(v, big.NewInt(1)), q)}) {
+						problems = append(problems, fmt.Sprintf("Check accepts a wrong share at index %d (commitments r%v)", i, pm))
+						break
+					}
+				}
+				fresh := share.NewPubPoly(g, nil, points(g, coeffs, q))
+				if !pp.Equal(fresh) || !fresh.Equal(pp) {
+					problems = append(problems, "Equal tells the polynomial from the one built from freshly computed commitments")
+				}
+				c2 := randCoeffs(rng, t, q)
+				sum, err := pp.Add(share.NewPubPoly(g, nil, points(g, c2, q)))
+				if err != nil {
+					problems = append(problems, "Add failed: "+err.Error())
+				} else {
+					cs := make([]*big.Int, t)
+					for k := range cs {
+						cs[k] = new(big.Int).Mod(new(big.Int).Add(coeffs[k], c2[k]), q)
+					}
+					i := rng.Intn(5)
+					if !bytes.Equal(PtBytes(sum.Eval(i).V), PtBytes(Pt(g, refEval(cs, i, q), q))) {
+						problems = append(problems, "the sum with another polynomial does not evaluate to the sum of the values")
+					}
+				}
+				// a base point with a history
+				for _, r := range regs {
+					if r.d.Sign() == 0 {
+						continue
+					}
+					pc := randCoeffs(rng, 2, q)
+					pri := share.CoefficientsToPriPoly(g, scalars(g, pc, q))
+					pub := pri.Commit(r.p)
+					_, cm := pub.Info()
+					for k, c := range cm {
+						if !bytes.Equal(PtBytes(c), PtBytes(Pt(g, new(big.Int).Mul(pc[k], r.d), q))) {
+							problems = append(problems, "Commit over a base point with a history gives a wrong commitment")
+							break
+						}
+					}
+					if !pub.Check(pri.Eval(1)) {
+						problems = append(problems, "Check over a base point with a history refuses the true share")
+					}
+					break
+				}
+				return hx.B([]byte(strings.Join(problems, "; ")))
+			})
+			oracle := "ok"
+			text := strings.Join(prog, "; ")
+			if res == hx.P {
+				oracle = hx.Fail("commitment-algebra-wrong", "panic after the program "+text+": "+hx.LastPanic)
+			} else if len(problems) > 0 {
+				oracle = hx.Fail("commitment-algebra-wrong", strings.Join(problems, "; ")+" - after the program "+text)
+			}
+			w.Put(hx.Case{Entry: "-", Op: 0, Args: hx.L(hx.Zi(grp), hx.B([]byte(text))), Impl: res, Oracle: oracle,
+				Tags: []string{gtag, "commitments-with-history", "nt"}})
+		}
+	}
+}
+
+// The same group reached through two suite instances (a node builds its suite in more than one
+// place): polynomials with the same coefficients are equal, sums are defined.
+func c09TwoInstances(rng *hx.Rng, w *hx.Writer) {
+	type inst struct {
+		name   string
+		g1, g2 kyber.Group
+		q      *big.Int
+		sc     kyber.Group // the group whose scalars Sc builds
+	}
+	bn2 := bn256.NewSuite()
+	ed2 := edwards25519.NewBlakeSHA256Ed25519()
+	for _, in := range []inst{{"bn256-G2", Bn.G2(), bn2.G2(), BnQ, Bn.G2()}, {"bn256-G1", Bn.G1(), bn2.G1(), BnQ, Bn.G1()}, {"ed25519", Ed, ed2, EdL, Ed}} {
+		for it := 0; it < 3; it++ {
+			t := 1 + rng.Intn(4)
+			c1, c2 := randCoeffs(rng, t, in.q), randCoeffs(rng, t, in.q)
+			var problems []string
+			res := hx.Catch(func() string {
+				a := share.CoefficientsToPriPoly(in.g1, scalars(in.sc, c1, in.q))
+				b := share.CoefficientsToPriPoly(in.g2, scalars(in.sc, c1, in.q))
+				if !a.Equal(b) || !b.Equal(a) {
+					problems = append(problems, "two private polynomials with the same coefficients compare unequal")
+				}
+				b2 := share.CoefficientsToPriPoly(in.g2, scalars(in.sc, c2, in.q))
+				if sum, err := a.Add(b2); err != nil {
+					problems = append(problems, "private Add: "+err.Error())
+				} else {
+					want := new(big.Int).Mod(new(big.Int).Add(refEval(c1, 2, in.q), refEval(c2, 2, in.q)), in.q)
+					if ScVal(in.sc, sum.Eval(2).V).Cmp(want) != 0 {
+						problems = append(problems, "private Add gives a wrong polynomial")
+					}
+				}
+				pa := share.NewPubPoly(in.g1, nil, points(in.g1, c1, in.q))
+				pb := share.NewPubPoly(in.g2, nil, points(in.g1, c1, in.q))
+				if !pa.Equal(pb) || !pb.Equal(pa) {
+					problems = append(problems, "two commitment polynomials with the same commitments compare unequal")
+				}
+				pb2 := share.NewPubPoly(in.g2, nil, points(in.g1, c2, in.q))
+				if sum, err := pa.Add(pb2); err != nil {
+					problems = append(problems, "commitment Add: "+err.Error())
+				} else {
+					want := new(big.Int).Mod(new(big.Int).Add(refEval(c1, 1, in.q), refEval(c2, 1, in.q)), in.q)
+					if !bytes.Equal(PtBytes(sum.Eval(1).V), PtBytes(Pt(in.g1, want, in.q))) {
+						problems = append(problems, "commitment Add gives a wrong polynomial")
+					}
+				}
+				return hx.B([]byte(strings.Join(problems, "; ")))
+			})
+			oracle := "ok"
+			if res == hx.P {
+				oracle = hx.Fail("commitment-algebra-wrong", in.name+" through two suite instances: panic: "+hx.LastPanic)
+			} else if len(problems) > 0 {
+				oracle = hx.Fail("commitment-algebra-wrong", in.name+" through two suite instances: "+strings.Join(problems, "; "))
+			}
+			w.Put(hx.Case{Entry: "-", Op: 0, Args: hx.L(hx.B([]byte(in.name)), bigsVal(c1), bigsVal(c2)), Impl: res, Oracle: oracle,
+				Tags: []string{"two-suite-instances", "nt"}})
+		}
+	}
 }
